@@ -258,6 +258,7 @@ type fixture struct {
 	hookCalls  int
 	hookMsg    string
 	hookName   string
+	kept       []keptEntry
 	evalDemand bool // every serialising core is a byte encoder: evaluation counts are demanded
 }
 
@@ -551,6 +552,12 @@ func (r *runner) exec(c caseDesc) (fail *failure) {
 		}
 	}
 
+	for _, k := range fx.kept {
+		if !ctxEqual(k.ctx, k.want) {
+			gl, wl, class := ctxDiff(k.ctx, k.want)
+			return &failure{key: fmt.Sprintf("%s:obs-entry-changed-later:%s", famName, class), what: fmt.Sprintf("the entry observed at %s was correct when it was logged but reads %v at the end of the program, reference %v", k.where, gl, wl)}
+		}
+	}
 	// evaluation counts: every marshaler has been used by now (every node logged)
 	if fx.evalDemand {
 		for _, m := range r.muts {
@@ -675,30 +682,44 @@ func (r *runner) verify(fx *fixture, e event, n mnode, name, msg string, all []f
 		if ent.Message != msg || ent.Level != zapcore.InfoLevel {
 			return &failure{key: famName + ":obs-wrong-entry:" + n.op, what: fmt.Sprintf("%s: observed (%v, %q), want (info, %q)", where, ent.Level, ent.Message, msg)}
 		}
-		ok := len(ent.Context) == len(all)
-		if ok {
-			for k := range all {
-				w := all[k].field()
-				g := ent.Context[k]
-				if !g.Equals(w) || (w.Type == zapcore.ObjectMarshalerType && g.Interface != w.Interface) {
-					ok = false
-					break
-				}
-			}
-		}
-		if !ok {
-			var gl, wl []string
-			for _, g := range ent.Context {
-				gl = append(gl, fieldString(g))
-			}
-			for _, w := range all {
-				wl = append(wl, fieldString(w.field()))
-			}
-			class := classify(gl, wl, all)
+		if !ctxEqual(ent.Context, all) {
+			gl, wl, class := ctxDiff(ent.Context, all)
 			return &failure{key: fmt.Sprintf("%s:obs-%s:%s", famName, class, n.op), what: fmt.Sprintf("%s: observed context %v, reference %v", where, gl, wl)}
 		}
+		// an entry already handed to the observer must not change when other loggers are derived or used later
+		fx.kept = append(fx.kept, keptEntry{ent.Context, append([]fspec(nil), all...), where})
 	}
 	return nil
+}
+
+type keptEntry struct {
+	ctx   []zapcore.Field
+	want  []fspec
+	where lazyWhere
+}
+
+func ctxEqual(ctx []zapcore.Field, all []fspec) bool {
+	if len(ctx) != len(all) {
+		return false
+	}
+	for k := range all {
+		w := all[k].field()
+		g := ctx[k]
+		if !g.Equals(w) || (w.Type == zapcore.ObjectMarshalerType && g.Interface != w.Interface) {
+			return false
+		}
+	}
+	return true
+}
+
+func ctxDiff(ctx []zapcore.Field, all []fspec) (gl, wl []string, class string) {
+	for _, g := range ctx {
+		gl = append(gl, fieldString(g))
+	}
+	for _, w := range all {
+		wl = append(wl, fieldString(w.field()))
+	}
+	return gl, wl, classify(gl, wl, all)
 }
 
 type lazyWhere struct {
